@@ -21,3 +21,13 @@ Example c05_ex_aes_roundtrip :
   iso_decrypt_data d key true 7 0 (opt_bytes (kd_encrypt_data key 4 true 7 0 pl_static_iv [104;105])) = Some [104;105]
   /\ length (opt_bytes (kd_encrypt_data key 4 true 7 0 pl_static_iv [104;105])) = 32%nat.
 Proof. vm_compute. repeat split. Qed.
+(* an over-long (128-byte) user password under R5: the file opens with it (and, being equal after truncation, with its
+   127-byte prefix); a 128-byte owner password likewise. Before fix 032abc49 all four were rejected. *)
+Example c05_ex_long_password_opens :
+  let long := repeat 97 128%nat in
+  let d1 := to_iso (fst (v5_params_of 5 4294967292 [] true long [111] (repeat 7 68%nat))) in
+  let d2 := to_iso (fst (v5_params_of 5 4294967292 [] true [117] long (repeat 7 68%nat))) in
+  iso_open d1 long = Some (repeat 7 32%nat) /\ iso_open d1 (firstn 127 long) = Some (repeat 7 32%nat) /\
+  iso_open d2 long = Some (repeat 7 32%nat) /\ iso_open d2 (firstn 127 long) = Some (repeat 7 32%nat) /\
+  iso_open d1 (repeat 97 126%nat) = None.
+Proof. vm_compute. repeat split. Qed.
